@@ -3,7 +3,7 @@
    listing program (walk of index-v5, every bucket read and reduced) returns exactly the entries that lookups find, for
    every tree with a well-shaped index area in which every record sits in the bucket of its key (what the API produces;
    a record planted by hand in a foreign bucket is listed but not found: outside the property's histories). *)
-From CC Require Import Bytes Codec Utf8 Lines Json Sri Record Fs Prog Api BytesP CodecP LinesP LsP FsP ProgP SriP RecordP IndexP ReadP WriteP CommitP RemoveP LsWholeP.
+From CC Require Import Bytes Codec Utf8 Lines Json Sri Record Fs Prog Api BytesP CodecP LinesP LsP FsP ProgP SriP RecordP IndexP ReadP WriteP CommitP RemoveP LsWholeP Crash CrashP CrashIdxP KeepP JsonP RecCodecP MetaP HistP LsHistP.
 
 Section C10.
 Variable hash : algo -> bytes -> bytes.
@@ -35,6 +35,28 @@ Proof. exact (ls_whole hash f). Qed.
 Theorem C10_ls_fresh f : is_dir f [index_dir] = false -> run (ls hash) f = (Ok [LErr EIoErr], f).
 Proof. exact (ls_fresh hash f). Qed.
 
+(* over histories (LsHistP.v): the shape hypotheses of [C10_ls_whole] hold in every state any history reaches, so after ANY
+   sequence of keyed writes (one-shot, streamed), writes by address, key removals and removals of content from the empty
+   cache — at least one of them touching the index — the listing succeeds, yields entries only, lists a key iff the
+   specification map holds it (so: iff a lookup finds it), with the entry the lookup finds *)
+Theorem C10_listing_after_history (h : list cop) :
+  HashLen hash ->
+  forallb (c_ok hash) h = true -> NoColl hash (c_all (fold_left c_step h cspec0)) -> existsb c_indexes h = true ->
+  let f := fold_left (c_run hash) h [] in let s := fold_left c_step h cspec0 in
+  exists items, run (ls hash) f = (Ok items, f) /\
+    (forall it, In it items -> exists m, it = LMeta m) /\
+    (forall m, In (LMeta m) items <-> abs_idx hash f (m_key m) = Some m) /\
+    (forall k, (exists m, In (LMeta m) items /\ m_key m = k) <-> c_map s k <> None) /\
+    (forall m a d, In (LMeta m) items -> c_map s (m_key m) = Some (a, d) -> m_sri m = sri_of hash a d).
+Proof. intros HL. exact (listing_after_history hash HL h). Qed.
+
+(* the shape invariants themselves are invariants of every history *)
+Theorem C10_shape_reachable (h : list cop) f0 s0 :
+  HashLen hash ->
+  CInv hash f0 s0 -> LInv hash f0 -> forallb (c_ok hash) h = true -> NoColl hash (c_all (fold_left c_step h s0)) ->
+  LInv hash (fold_left (c_run hash) h f0).
+Proof. intros HL H0 Hl Hok Hnc. exact (proj1 (proj2 (lhistory hash HL h f0 s0 H0 Hl Hok Hnc))). Qed.
+
 End C10.
 
 (* non-vacuity: three writes and a removal over two keys; the listing is exactly the one live entry *)
@@ -59,3 +81,22 @@ Print Assumptions C10_ls_keys_nodup.
 Print Assumptions C10_bucket_bytes.
 Print Assumptions C10_ls_whole.
 Print Assumptions C10_ls_fresh.
+(* non-vacuity of the history theorem: its premises hold of a concrete history, and the listing of the final tree is
+   exactly the two live keys *)
+Example C10_history_example :
+  let h := [CWrite Sync Sha256 (bs "k1") (bs "same") 1%N; CStream Async (bs "k2") (mkWopts (Some Sha256) None None None None None) [bs "sa"; bs "me"] 2%N;
+            CWriteHash Sync Sha1 (bs "other"); CRemoveHash Sha256 (bs "same"); CWrite Sync Sha1 (bs "k1") (bs "new") 5%N;
+            CWrite Sync Sha1 (bs "k3") (bs "x") 6%N; CRemove (bs "k3") 7%N] in
+  forallb (c_ok toy_hash) h = true /\ NoColl toy_hash (c_all (fold_left c_step h cspec0)) /\ existsb c_indexes h = true /\
+  match fst (run (ls toy_hash) (fold_left (c_run toy_hash) h [])) with
+  | Ok items => map (fun it => match it with LMeta m => m_key m | LErr _ => [] end) items = [bs "k2"; bs "k1"] \/
+                map (fun it => match it with LMeta m => m_key m | LErr _ => [] end) items = [bs "k1"; bs "k2"]
+  | _ => False end.
+Proof.
+  split; [vm_compute; reflexivity|]. split; [|split; [vm_compute; reflexivity|vm_compute; auto]].
+  intros a d a' d' H1 H2 Hc. cbn in H1, H2.
+  repeat (destruct H1 as [H1|H1]; [inversion H1; subst; clear H1|]); try contradiction;
+    repeat (destruct H2 as [H2|H2]; [inversion H2; subst; clear H2|]); try contradiction; try reflexivity; vm_compute in Hc; discriminate.
+Qed.
+Print Assumptions C10_listing_after_history.
+Print Assumptions C10_shape_reachable.
